@@ -200,6 +200,10 @@ func crashHistory(rng *rand.Rand, out *Out) {
 		// the disk image at the crash
 		img := copyDir(d)
 		nk.budget = 0
+		// the image is taken: release the dead node's database (table readers, journal, goroutines); whatever it
+		// still tries to write is refused and the directory is dropped anyway
+		nk.fs.tear = false
+		safe(func() error { nk.m.Stop(); return nil })
 		nk.fs.Storage.Close()
 		os.RemoveAll(d)
 
